@@ -151,6 +151,18 @@ theorem remove_wiring {F : Type} [Field F] (sqrtN : ℕ → F) (cos sin : F → 
   rw [show (Gen.removeFitArgs a).mask = a.mask from rfl] at *
   exact congrArg (fun f => a.opd s - composeX k (zBasisX sqrtN cos sin a.modes true a.rho a.theta a.mask) f s) (key a.modes true a.rho a.theta a.mask a.opd)
 
+/-- **`zernike_remove` subtracts exactly the composed fit** — the returned expression of the source (`Gen.removeResidual`, re-translated on every
+run together with the data flow `coeffs = zernike_fit(…)`, `basis = zernike_basis(…)`, `fit_opd = einsum(basis, coeffs)`): per sample the result is the
+input OPD minus the regenerated contraction of the basis (requested with `Gen.removeBasisArgs`) with the coefficients fitted with
+`Gen.removeFitArgs` — no other term, sign or operand order. This holds over any scalar type with the model's operations (also the `Float` run of the
+driver). A change of `residual = opd - fit_opd` changes `Gen.removeResidual` and breaks this theorem and `remove_wiring`. -/
+theorem remove_subtracts_composed_fit {K : Type} [Add K] [Sub K] [Mul K] [Div K] [Neg K] [Zero K] [One K] [IntCast K]
+    (sqrtN : ℕ → K) (cos sin : K → K) (p k : ℕ) (a : Gen.RemoveArgs (ℕ → K) (ℕ → Bool) (ℕ → ℕ) (ℕ → K)) (s : ℕ) :
+    (∀ x y : K, Gen.removeResidual x y = x - y) ∧
+    removeA sqrtN cos sin p k a s =
+      a.opd s - composeX k (basisOfArgs sqrtN cos sin (Gen.removeBasisArgs a)) (fitA sqrtN cos sin p k (Gen.removeFitArgs a)) s :=
+  ⟨fun _ _ => rfl, rfl⟩
+
 /-- **samples outside the mask do not influence `zernike_fit`** — by the regenerated selection `Gen.fitSelect` (`np.where(mask != 0, opd, 0)`)
 itself, with no arithmetic: two OPDs that agree on the mask give the same argument to the contraction. This is the clause the repair of
 KF-C12-nonfinite-outside-mask restored; it holds for ANY scalar type with the model's operations (no `0 · x = 0` is used), in particular
